@@ -1,5 +1,6 @@
 import JxlModel.Driver.Common
 import JxlModel.Model.Entropy.Decoder
+import JxlModel.Model.Entropy.PrefixTable
 import JxlModel.Model.Enc.EntropyEnc
 /-!
 Line protocol for C04.
@@ -12,6 +13,10 @@ Line protocol for C04.
   `rle <numDist> <hex> <n> <ctx>…`
   `perm <numDist> <size> <skip> <hex>`
   `clusters <numDist> <hex>`
+  `ptab <n> <len_0> … <len_{n-1}>` (model only) → `ok agree=32768 tb=<toplevelBits> second=<n>` |
+      `both-err:<word>` | `impl-spec-mismatch <detail>`
+`dec`/`rle`/`perm` also run the Impl table reader (`PrefixTable.lean`) next to the Spec reader at
+every token read position; a disagreement appends ` impl-spec-mismatch` to the line.
 
 plan  := P numDist lz cmLen cm… nbits inner coder ncfg (se msb lsb)… ncodes code…
 lz    := N | L minSymbol minLength se msb lsb
@@ -226,25 +231,83 @@ def showSingle (d : Decoder) : String :=
   ",".intercalate ((List.range d.configs.length).map fun c =>
     match d.singleToken c with | some t => toString t | none => "-")
 
-def decLoop (d : Decoder) (mult total : Nat) : List Nat → DState → Bits → List String → String
-  | [], st, s, acc =>
-    let fin := match d.finalize st with | .ok () => "ok" | .error e => "err:" ++ e.word
-    s!"vals={",".intercalate acc.reverse} fin={fin} end={total - s.length}"
-  | c :: cs, st, s, acc =>
-    match d.readVarint st c mult s with
-    | .error e => s!"vals={",".intercalate acc.reverse} err={e.word}@{acc.length}"
-    | .ok ((v, st1), s1) => decLoop d mult total cs st1 s1 (s!"{v}@{total - s1.length}" :: acc)
+/-- Impl tables (`with_code_lengths`) of the cluster codes: `none` = single-symbol code (no table);
+the flag is false when some table failed to build. -/
+def buildTables : List PrefixCode → List (Option TableHist) × Bool
+  | [] => ([], true)
+  | .single _ :: r => let (ts, ok) := buildTables r; (none :: ts, ok)
+  | .table es :: r =>
+    let (ts, ok) := buildTables r
+    match withCodeLengths (lensOfEntries es) with
+    | .ok t => (some t :: ts, ok)
+    | .error _ => (none :: ts, false)
 
-def rleLoop (d : Decoder) (p : Lz77Params) (total : Nat) : List Nat → DState → Bits → List String → String
-  | [], _, s, acc => s!"toks={",".intercalate acc.reverse} end={total - s.length}"
-  | c :: cs, st, s, acc =>
+/-- Impl-vs-Spec comparison context of one parsed decoder -/
+structure TabCk where
+  codes : List PrefixCode := []
+  tabs : List (Option TableHist) := []
+  built : Bool := true
+
+def TabCk.ofDecoder (d : Decoder) : TabCk :=
+  match d.code with
+  | .prefix cs => let (ts, ok) := buildTables cs; ⟨cs, ts, ok⟩
+  | .ans _ => {}
+
+/-- Impl and Spec reads of cluster `cluster` agree on the stream `s` -/
+def TabCk.agree (k : TabCk) (cluster : Nat) (s : Bits) : Bool :=
+  match k.codes.getD cluster default with
+  | .single _ => true
+  | .table es =>
+    match k.tabs.getD cluster none with
+    | none => false
+    | some t => sameRead (t.read s) ((PrefixCode.table es).read s)
+
+/-- all clusters agree on `s` -/
+def TabCk.agreeAll (k : TabCk) (s : Bits) : Bool :=
+  (List.range k.codes.length).all fun c => k.agree c s
+
+/-- the read position `s` of a token of context `c` (and the LZ77 distance cluster when present) -/
+def TabCk.atToken (k : TabCk) (d : Decoder) (c : Nat) (s : Bits) : Bool :=
+  k.agree (d.clusters.getD c 0) s &&
+    (match d.lz77 with | some _ => k.agree d.lzDistCluster s | none => true)
+
+def mm (good : Bool) : String := if good then "" else " impl-spec-mismatch"
+
+def decLoop (d : Decoder) (k : TabCk) (mult total : Nat) :
+    List Nat → DState → Bits → List String → Bool → String
+  | [], st, s, acc, good =>
+    let fin := match d.finalize st with | .ok () => "ok" | .error e => "err:" ++ e.word
+    s!"vals={",".intercalate acc.reverse} fin={fin} end={total - s.length}" ++ mm good
+  | c :: cs, st, s, acc, good =>
+    let good := good && k.atToken d c s
+    match d.readVarint st c mult s with
+    | .error e => s!"vals={",".intercalate acc.reverse} err={e.word}@{acc.length}" ++ mm good
+    | .ok ((v, st1), s1) =>
+      decLoop d k mult total cs st1 s1 (s!"{v}@{total - s1.length}" :: acc) good
+
+def rleLoop (d : Decoder) (k : TabCk) (p : Lz77Params) (total : Nat) :
+    List Nat → DState → Bits → List String → Bool → String
+  | [], _, s, acc, good => s!"toks={",".intercalate acc.reverse} end={total - s.length}" ++ mm good
+  | c :: cs, st, s, acc, good =>
+    let good := good && k.atToken d c s
     match d.readRle p st (d.clusters.getD c 0) s with
-    | .error e => s!"toks={",".intercalate acc.reverse} err={e.word}@{acc.length}"
+    | .error e => s!"toks={",".intercalate acc.reverse} err={e.word}@{acc.length}" ++ mm good
     | .ok ((t, st1), s1) =>
       let w := match t with | .value v => s!"V{v}" | .rep n => s!"R{n}"
-      rleLoop d p total cs st1 s1 (s!"{w}@{total - s1.length}" :: acc)
+      rleLoop d k p total cs st1 s1 (s!"{w}@{total - s1.length}" :: acc) good
 
-def decStep (ws : List String) : String :=
+/-- `ptab`: Impl tables against the Spec code on all 2^15 look-aheads -/
+def ptabStep (lens : List Nat) : String :=
+  match withCodeLengths lens, PrefixCode.ofLengths lens with
+  | .error _, .error e => s!"both-err:{e.word}"
+  | .error e, .ok _ => s!"impl-spec-mismatch impl=err:{e.word} spec=ok"
+  | .ok _, .error e => s!"impl-spec-mismatch impl=ok spec=err:{e.word}"
+  | .ok t, .ok c =>
+    match firstMismatch t c 0 32768 with
+    | none => s!"ok agree=32768 tb={t.toplevelBits} second={t.second.length}"
+    | some v => s!"impl-spec-mismatch v={v}"
+
+def decStepCk (ck : Bool) (ws : List String) : String :=
   match ws with
   | "dec" :: nd :: mult :: hex :: _n :: ctxs =>
     (do
@@ -260,7 +323,9 @@ def decStep (ws : List String) : String :=
         let h := s!"hdr=ok:{total - s1.length} st={showSingle d} "
         match d.begin {} s1 with
         | .error e => pure (h ++ s!"begin=err:{e.word}")
-        | .ok (st, s2) => pure (h ++ decLoop d mult total ctxs st s2 [])
+        | .ok (st, s2) =>
+          let k : TabCk := if ck then TabCk.ofDecoder d else {}
+          pure (h ++ decLoop d k mult total ctxs st s2 [] k.built)
       : Option String).getD "bad-op"
   | "rle" :: nd :: hex :: _n :: ctxs =>
     (do
@@ -278,7 +343,9 @@ def decStep (ws : List String) : String :=
         | some p =>
           match d.begin {} s1 with
           | .error e => pure (h ++ s!"begin=err:{e.word}")
-          | .ok (st, s2) => pure (h ++ rleLoop d p total ctxs st s2 [])
+          | .ok (st, s2) =>
+            let k : TabCk := if ck then TabCk.ofDecoder d else {}
+            pure (h ++ rleLoop d k p total ctxs st s2 [] k.built)
       : Option String).getD "bad-op"
   | ["perm", nd, size, skip, hex] =>
     (do
@@ -295,11 +362,21 @@ def decStep (ws : List String) : String :=
         match d.begin {} s1 with
         | .error e => pure (h ++ s!"begin=err:{e.word}")
         | .ok (st, s2) =>
+          let k : TabCk := if ck then TabCk.ofDecoder d else {}
+          -- first token of the permutation (context `permContext size`) and every table at `s2`
+          let good := k.built && k.atToken d (permContext size) s2 && k.agreeAll s2
           match readPermutation d st size skip s2 with
-          | .error e => pure (h ++ s!"perm=err:{e.word}")
+          | .error e => pure (h ++ s!"perm=err:{e.word}" ++ mm good)
           | .ok ((perm, st1), s3) =>
+            let good := good && k.agreeAll s3
             let fin := match d.finalize st1 with | .ok () => "ok" | .error e => "err:" ++ e.word
-            pure (h ++ s!"perm=ok:{",".intercalate (perm.map toString)} fin={fin} end={total - s3.length}")
+            pure (h ++ s!"perm=ok:{",".intercalate (perm.map toString)} fin={fin} end={total - s3.length}" ++ mm good)
+      : Option String).getD "bad-op"
+  | "ptab" :: n :: lens =>
+    (do
+      let n ← n.toNat?
+      let lens ← natList lens
+      if lens.length ≠ n then none else pure (ptabStep lens)
       : Option String).getD "bad-op"
   | ["clusters", nd, hex] =>
     (do
@@ -311,6 +388,16 @@ def decStep (ws : List String) : String :=
       | .ok ((n, cl), s1) => pure s!"ok:{n}:{",".intercalate (cl.map toString)} end={bits.length - s1.length}"
       : Option String).getD "bad-op"
   | _ => "bad-op"
+
+/-- `deci` / `rlei` / `permi` = `dec` / `rle` / `perm` with the Impl table reader run next to the Spec
+reader (the campaign marks a deterministic share of its lines this way: building the list-based
+tables costs tens of milliseconds per line); the plain ops answer the same words without it. -/
+def decStep (ws : List String) : String :=
+  match ws with
+  | "deci" :: r => decStepCk true ("dec" :: r)
+  | "rlei" :: r => decStepCk true ("rle" :: r)
+  | "permi" :: r => decStepCk true ("perm" :: r)
+  | _ => decStepCk false ws
 
 def main : IO Unit := runLoop () fun _ ws => ((), decStep ws)
 
